@@ -451,7 +451,7 @@ func c04Scenario(c *Ctx, cs c04Case) (labels []rxLabel, verdict string, detail m
 	}
 	wg.Wait()
 	// quiescence: no event for a while and no run in progress
-	deadline := time.Now().Add(5 * time.Second)
+	deadline := newPatience(5 * time.Second)
 	for {
 		before := atomic.LoadInt64(&log.events)
 		time.Sleep(15 * time.Millisecond)
@@ -467,7 +467,7 @@ func c04Scenario(c *Ctx, cs c04Case) (labels []rxLabel, verdict string, detail m
 				break
 			}
 		}
-		if time.Now().After(deadline) {
+		if deadline.expired() {
 			var st []string
 			for _, rn := range runners {
 				st = append(st, fmt.Sprintf("r%d inRun=%d runs=%d stopped=%d", rn.id, atomic.LoadInt32(&rn.inRun), atomic.LoadInt64(&rn.runs), atomic.LoadInt32(&rn.stopped)))
